@@ -1189,7 +1189,8 @@ class Load(LocalValue):
         self.volatile = volatile
 
     def __str__(self):
-        return f"{self.ty} {self.name} = load {self.address.name}"
+        volatile = "volatile " if self.volatile else ""
+        return f"{self.ty} {self.name} = load {volatile}{self.address.name}"
 
 
 class Store(Instruction):
@@ -1219,7 +1220,8 @@ class Store(Instruction):
     def __str__(self):
         val = self.value.name
         address = self.address.name
-        return f"store {val}, {address}"
+        volatile = "volatile " if self.volatile else ""
+        return f"store {volatile}{val}, {address}"
 
 
 class InlineAsm(Instruction):
